@@ -163,6 +163,15 @@ impl JwkStorage for StrongholdStorage {
             )),
           );
         }
+        // The vault holds raw secrets without a key type: make sure the secret under `key_id` is the Ed25519 key
+        // `public_key` belongs to, so that e.g. a BLS12381G2 secret is never used as an Ed25519 seed.
+        let stored_public_key = self.get_ed25519_public_key(key_id).await?;
+        if stored_public_key.try_okp_params().map(|params| params.x.as_str()).ok() != Some(okp_params.x.as_str()) {
+          return Err(
+            KeyStorageError::new(KeyStorageErrorKind::KeyAlgorithmMismatch)
+              .with_custom_message("`public_key` does not correspond to the key stored under `key_id`"),
+          );
+        }
       }
       other => {
         return Err(
